@@ -232,7 +232,7 @@ def run_lines(exe, lines, extra=(), timeout=300, shards=NPROC, case_timeout=10):
             return {}
         if len(part) == 1:
             return {part[0].split(' ', 1)[0]: _run_one(exe, extra, part[0], case_timeout)}
-        stdout, rc = _run_shard((exe, list(extra), part, 3 * case_timeout + 1.0 * len(part)))
+        stdout, rc = _run_shard((exe, list(extra), part, min(3 * case_timeout + 1.0 * len(part), max(timeout, 600))))
         got = absorb(part, stdout)
         if rc == 0 and len(got) == len(part):
             return got
